@@ -458,6 +458,36 @@ def rule_range_map_collect(text, dropped):
     return rx.sub(rep, text)
 
 
+def rule_option_map_unwrap_or(text, dropped):
+    """`X.map(|v| EXPR).unwrap_or(D)`  =>  `(match X { Some(v) => EXPR, None => D })` (soft rule)."""
+    rx = re.compile(r'(\b\w+(?:\s*\.\s*\w+\(\))+)\s*\.map\(\|(\w+)\| ([^;|]*?)\)\s*\.unwrap_or\(([^;]*?)\);', re.S)
+    def rep(m):
+        x, v, expr, d = m.group(1), m.group(2), m.group(3).strip(), m.group(4).strip()
+        x = re.sub(r'\s+', '', x)
+        x = re.sub(r'\s+', '', x)
+        new = f'(match {x} {{ Some({v}) => {expr}, None => {d} }});'
+        pad = m.group(0).count('\n') - new.count('\n')
+        dropped.append(('option-map-unwrap-or', re.sub(r'\s+', ' ', m.group(0)) + '  =>  match'))
+        return new + '\n' * max(pad, 0)
+    return rx.sub(rep, text)
+
+
+def rule_iter_map_collect(text, dropped):
+    """`let X = Y.into_iter().map(|v| EXPR)[.inspect(..)].collect_vec();`  =>  explicit for loop pushing EXPR
+    (closure body verbatim; an `.inspect(|..| tracing..)` stage is dropped). Soft rule."""
+    rx = re.compile(r'let (\w+) = (\w+)\s*\.into_iter\(\)\s*\.map\(\|(\w+)\| (.*?)\)\s*(?:\.inspect\(\|\w+\|\s*\)\s*)?\.collect_vec\(\);', re.S)
+    def rep(m):
+        x, y, v, expr = m.group(1), m.group(2), m.group(3), m.group(4).strip()
+        new = f'let mut {x} = Vec::new(); for {v} in {y}.into_iter() {{ {x}.push({expr}); }}'
+        pad = m.group(0).count('\n') - new.count('\n')
+        if pad < 0:
+            new = re.sub(r'\s*\n\s*', ' ', new)
+            pad = m.group(0).count('\n')
+        dropped.append(('iter-map-collect', re.sub(r'\s+', ' ', m.group(0))[:200] + '  =>  explicit for loop'))
+        return new + '\n' * max(pad, 0)
+    return rx.sub(rep, text)
+
+
 RULES = {
     'drop-tracing': rule_drop_tracing,
     'assert-eq': rule_assert_eq,
@@ -473,6 +503,8 @@ RULES = {
     'drop-metrics': rule_drop_metrics,
     'for-tuple-pattern': rule_for_tuple_pattern,
     'range-map-collect': rule_range_map_collect,
+    'option-map-unwrap-or': rule_option_map_unwrap_or,
+    'iter-map-collect': rule_iter_map_collect,
     'pub-fields': rule_pub_fields,
     'chunks-enumerate': rule_chunks_enumerate,
 }
